@@ -255,9 +255,9 @@ theorem notify_noninterference (he : c.encrypted = false) (hs : SameUnprotected 
 def niSrv : Server :=
   ⟨23, ⟨false, false, false⟩,
    [⟨0x2800, .service [0x20, 0x18] 5, default, default⟩,
-    ⟨0x2803, .charDecl [0x01, 0x20] false false false false, default, default⟩,
+    ⟨0x2803, .charDecl [0x01, 0x20] false false false false 0, default, default⟩,
     ⟨0x2001, .bound 0 2 true true, default, default⟩,
-    ⟨0x2803, .charDecl [0x02, 0x20] false false false false, default, ⟨true, false, false⟩⟩,
+    ⟨0x2803, .charDecl [0x02, 0x20] false false false false 0, default, ⟨true, false, false⟩⟩,
     ⟨0x2002, .bound 1 2 true true, default, ⟨true, false, false⟩⟩], []⟩
 
 /-- the hypothesis is satisfiable by memories that differ in the protected cell … -/
